@@ -71,6 +71,37 @@ Theorem release_links_effects :
   g_release_links = [ purge_loop_tree; E MoveLinks; E DropLinks ].
 Proof. reflexivity. Qed.
 
+(** rc.rs. [try_unwrap] (model: [ATryUnwrap], Model/Machine.v): only with
+    exactly one strong handle; peers unlinked and the table destroyed FIRST
+    (fix 6e7f797), then the value read out, the count decremented, and the
+    implicit weak released by the hand-built Weak's drop at the end of the
+    block; the handle itself forgotten. [make_mut] ([AMakeMut]): shared ->
+    clone into a fresh allocation and assign (the old handle goes through
+    [Rc::drop]: a trace may run, C03b); unique with Weaks -> bitwise move,
+    unlink, give the old allocation up by hand ([dec_strong], [dec_weak]) and
+    overwrite without drop; unique without Weaks -> nothing. [Weak::drop]
+    ([weak_drop]): nothing for a dangling Weak, else [dec_weak] and release
+    at zero. *)
+Theorem try_unwrap_effects :
+  g_try_unwrap =
+  [ Branch [E TestStrongIsOne] [E ReleaseLinks; E ReadValue; E DecStrong; E MakeWeakGuard; E Forget; E ReturnOk];
+    Branch [] [E ReturnErr] ].
+Proof. reflexivity. Qed.
+
+Theorem make_mut_effects :
+  g_make_mut =
+  [ Branch [E TestStrongNotOne] [E NewUninit; E CloneValue; E AssignDropOld];
+    Branch [E TestWeakCountNotZero]
+      [E NewUninit; E CopyValue; E ReleaseLinks; E DecStrong; E DecWeak; E OverwriteNoDrop] ].
+Proof. reflexivity. Qed.
+
+Theorem weak_drop_effects :
+  g_weak_drop = [ Branch [] [E Return]; E DecWeak; Branch [E TestWeakZero] [E Dealloc] ].
+Proof. reflexivity. Qed.
+
+Print Assumptions try_unwrap_effects.
+Print Assumptions make_mut_effects.
+Print Assumptions weak_drop_effects.
 Print Assumptions drop_unreachable_effects.
 Print Assumptions drop_unreachable_with_adoptions_effects.
 Print Assumptions drop_cycle_effects.
